@@ -9,7 +9,7 @@ from ..indep import envmodel, mcbor
 from . import common, encryption as X
 
 ID = "C06"
-RULE = ("plaintext sizes {0,1,15,16,17,31,32,33,300,4096,65537, random} x key ids at the CBOR width boundaries and "
+RULE = ("plaintext sizes {0,1,15,16,17,31,32,33,300,4095..4097,8192,16384,65535,65536,65537,131072,196608, random} x key ids at the CBOR width boundaries and "
         "random 32-bit x the five digest algorithms; encrypt-and-generate through cmd_encrypt.main, CLI in-process, real "
         "CLI (guard off) and the encrypt-script plug-in interface; create embedding of the emitted info through "
         "{file: ...} and {raw: ...}; generate-info on iv||tag||ciphertext blobs produced by the harness. distinct = "
@@ -205,7 +205,7 @@ def replay(rec, case):
 
 def finish(merged, tier, seed):
     cnt = merged["counters"]
-    for k in ["alg:" + a for a in HASHES] + ["size:0", "size:16", "size:65537", "embed:file", "embed:raw",
+    for k in ["alg:" + a for a in HASHES] + ["size:0", "size:16", "size:65536", "size:65537", "size:131072", "embed:file", "embed:raw",
                                              "generate-info:kw:direct"]:
         if cnt.get(k, 0) < 3:
             merged["inconclusive"].append(f"class {k} observed fewer than 3 times")
